@@ -17,7 +17,12 @@ import (
 	"golang.org/x/tools/go/ssa"
 )
 
-const verifRoot = "/verif"
+var verifRoot = func() string {
+	if r := os.Getenv("GOSYM_ROOT"); r != "" {
+		return r
+	}
+	return "/verif"
+}()
 
 func usage() {
 	fmt.Fprintln(os.Stderr, "usage: gosym check <Cxx> [--tier quick|thorough] [--only harness] | gosym replay <dir> | gosym selftest")
